@@ -447,7 +447,7 @@ for _pid, _q, _t in [("C01", 60, 200), ("C02", 30, 120), ("C03", 100, 300), ("C1
 
 # large decoder geometries (windows of 64 KiB..8 MiB, operands of up to a few MiB)
 for _pid in ("C04", "C06", "C07", "C17", "C18"):
-    CHECKS[_pid]["quick"]["tests"].append({"test": "Test%sLarge" % _pid, "checks": 30, "subchecks": 2})
+    CHECKS[_pid]["quick"]["tests"].append({"test": "Test%sLarge" % _pid, "checks": 80, "subchecks": 2})
     CHECKS[_pid]["thorough"]["tests"].append({"test": "Test%sLarge" % _pid, "checks": 200, "subchecks": 2})
     CHECKS[_pid]["rule"] += (" Plus large geometries: WindowSize 64 KiB..8 MiB (default), buffers of megabytes, literal runs and "
                              "matches of up to 5 MiB (overlapping copies whose doubling passes 1 MiB, offsets beyond 2^16 and 2^20), "
